@@ -190,6 +190,37 @@ def run(ck):
     for why, at in bad.items(): r1.instance('bin/main.c:sanitize_utf8', ok=False, wclass='echo-buffer:' + why.split('(')[0][:20], what=f'{why} ({at})')
     for _ in range(max(n - len(bad), 0)): r1.instance('bin/main.c:sanitize_utf8', ok=True)
     if n < 10: raise AnalysisBroken('sanitize_utf8: buffer writes not found')
+    # ---- R20.7 getline's contract: (*lineptr, *n) are the buffer and its allocated size, owned by getline between calls
+    r7 = ck.rule('R20.7', 'parse_file: the pointer and the capacity handed to getline (&line, &n) start as NULL / 0 and are written by nothing but getline (a capacity of 0 with a live buffer makes getline allocate a new one and leak the old)', 2)
+    pf = tu.fn('parse_file')
+    gl = [c for nm, c in astutil.calls_in(pf) if nm == 'getline']
+    if not gl: raise AnalysisBroken('parse_file: no getline call')
+    def addr_var(arg):
+        a = astutil.strip(arg)
+        if a.get('kind') == 'UnaryOperator' and a.get('opcode') == '&':
+            b = astutil.strip(a['inner'][0])
+            if b.get('kind') == 'DeclRefExpr': return b['referencedDecl']['name']
+        return None
+    for c in gl:
+        args = c['inner'][1:]
+        lv, nv = addr_var(args[0]), addr_var(args[1])
+        if lv is None or nv is None: raise AnalysisBroken(f'getline arguments are not &variable at {where(c)}')
+        for var, what0 in ((nv, 'capacity'), (lv, 'buffer pointer')):
+            writes = []
+            for n in astutil.walk(pf):
+                k = n.get('kind')
+                tgt = None
+                if k in ('BinaryOperator', 'CompoundAssignOperator') and (n.get('opcode') == '=' or k == 'CompoundAssignOperator'): tgt = astutil.strip(n['inner'][0])
+                if k == 'UnaryOperator' and n.get('opcode') in ('++', '--'): tgt = astutil.strip(n['inner'][0])
+                if tgt is not None and tgt.get('kind') == 'DeclRefExpr' and tgt['referencedDecl']['name'] == var: writes.append(where(n))
+            init_ok = False
+            for d in astutil.find(pf, 'VarDecl'):
+                if d['name'] == var:
+                    ini = [x for x in d.get('inner', []) if 'Comment' not in x.get('kind', '')]
+                    lits = [m for m in astutil.walk(ini[0])] if ini else []
+                    init_ok = bool(ini) and any(m.get('kind') == 'IntegerLiteral' and m.get('value') == '0' for m in lits)
+            r7.instance(f'bin/main.c:parse_file:getline:{what0}', ok=not writes and init_ok, wclass='getline-' + what0.split()[0],
+                        what=f'the {what0} variable {var} handed to getline is ' + (f'also written at {", ".join(writes)}' if writes else 'not initialised to 0 / NULL'))
     # ---- R20.5 the tool's own decoder (a copy of src/utf8_decode.c with a static cursor) - the echo clause needs it to
     # accept every well-formed sequence and to report the byte index of each character
     if dec is None: raise AnalysisBroken('bin/utf8_decode.c is not built')
